@@ -60,6 +60,8 @@ enum Op {
     VRedeemBy { op: usize, owner: usize, recv: usize, a: i128 },
     /// vault: `who` sends `a` underlying assets straight to the vault (a donation / yield: no shares move)
     VDonate { who: usize, a: i128 },
+    /// probe on a rebuilt copy: 600000 ledgers pass without a call; balances and supply must be the same
+    IdleProbe,
     Forced { from: usize, to: usize, a: i128 },
     /// RWA: recover the whole balance of `old` to its registered recovery target `new`
     Recover { old: usize, new: usize },
@@ -151,7 +153,7 @@ impl Tok {
             Op::VRedeem { who, recv, a } => ("redeem", (*a, u(*recv), u(*who), u(*who)).into_val(e)),
             Op::VWithdrawBy { op, owner, recv, a } => ("withdraw", (*a, u(*recv), u(*owner), u(*op)).into_val(e)),
             Op::VRedeemBy { op, owner, recv, a } => ("redeem", (*a, u(*recv), u(*owner), u(*op)).into_val(e)),
-            Op::VDonate { .. } => return None,
+            Op::VDonate { .. } | Op::IdleProbe => return None,
         })
     }
 
@@ -159,6 +161,9 @@ impl Tok {
         if let Op::VDonate { who, a } = op {
             let asset = i.asset.as_ref().expect("vault flavour");
             return call_mocked(&i.e, asset, "transfer", (i.u[*who].clone(), i.c.clone(), *a).into_val(&i.e)).is_ok();
+        }
+        if matches!(op, Op::IdleProbe) {
+            return false;
         }
         let (f, args) = self.call(i, op).expect("op not available in flavour");
         let r = call_mocked(&i.e, &i.c, f, args);
@@ -344,6 +349,7 @@ impl World for Tok {
             out
         };
         let vault = matches!(self.flavour, Flavour::Vault(_));
+        v.push(Op::IdleProbe);
         if matches!(self.flavour, Flavour::Base | Flavour::Votes | Flavour::Rwa) {
             for to in 0..N {
                 for a in dedup(vec![-1, 0, 1, 2, room, room.saturating_add(1), i128::MAX]) {
@@ -456,6 +462,7 @@ impl World for Tok {
             Op::VWithdrawBy { .. } => "vault.withdraw(operator)",
             Op::VRedeemBy { .. } => "vault.redeem(operator)",
             Op::VDonate { .. } => "vault.donation",
+            Op::IdleProbe => "idle-probe",
             Op::Forced { .. } => "rwa.forced_transfer",
             Op::Recover { .. } => "rwa.recover_balance",
         }
@@ -467,6 +474,22 @@ impl World for Tok {
     }
 
     fn step(&self, i: &mut Inst, m: &mut Model, op: &Op, cx: &mut StepCtx<Self>) -> Result<bool, Violation> {
+        if matches!(op, Op::IdleProbe) {
+            let copy = cx.rebuild();
+            envx::advance(&copy.e, 600_000);
+            let o = self.observe(&copy)?;
+            ensure!(
+                o.bal == m.obs.bal && o.supply == m.obs.supply,
+                "state-survives-idle",
+                "600000 ledgers without any call changed balances or supply: before {:?} / {}, after {:?} / {}",
+                m.obs.bal,
+                m.obs.supply,
+                o.bal,
+                o.supply
+            );
+            cx.stats.count("idle-probes", 1);
+            return Ok(false);
+        }
         let pre = m.obs.clone();
         let ok = self.exec(i, op);
         // events must be read before any further (getter) invocation clears the buffer
@@ -493,6 +516,7 @@ impl World for Tok {
             Op::Mint { a, .. } | Op::Transfer { a, .. } | Op::Approve { a, .. } | Op::TransferFrom { a, .. } | Op::Burn { a, .. } | Op::BurnFrom { a, .. } => *a,
             Op::VDeposit { a, .. } | Op::VMint { a, .. } | Op::VWithdraw { a, .. } | Op::VRedeem { a, .. } | Op::Forced { a, .. } => *a,
             Op::VWithdrawBy { a, .. } | Op::VRedeemBy { a, .. } | Op::VDonate { a, .. } => *a,
+            Op::IdleProbe => 0,
             Op::Recover { .. } => 0,
         };
         ensure!(amount_of(op) >= 0, "negative-amount-accepted", "{:?} succeeded with a negative amount", op);
@@ -531,6 +555,7 @@ impl World for Tok {
             Op::VDonate { .. } => {
                 ensure!(evs.is_empty(), "events", "a donation of assets made the vault emit share events {:?}", evs);
             }
+            Op::IdleProbe => unreachable!(),
         }
         if let Some((f, t)) = vault_move {
             // the share amount is decided by the vault (C05); here: exactly one deposit/withdraw
@@ -600,9 +625,10 @@ fn main() {
             }
             if let Some(rep) = r.report() {
                 rep.require(
-                    &["mint", "transfer", "approve", "transfer_from", "burn", "burn_from", "vault.deposit", "vault.mint", "vault.withdraw", "vault.redeem", "rwa.forced_transfer", "rwa.recover_balance"],
-                    &["mint", "transfer", "approve", "transfer_from", "burn", "burn_from", "vault.deposit", "vault.withdraw", "vault.redeem"],
+                    &["mint", "transfer", "approve", "transfer_from", "burn", "burn_from", "vault.deposit", "vault.mint", "vault.withdraw", "vault.redeem", "vault.withdraw(operator)", "vault.redeem(operator)", "vault.donation", "rwa.forced_transfer", "rwa.recover_balance"],
+                    &["mint", "transfer", "approve", "transfer_from", "burn", "burn_from", "vault.deposit", "vault.withdraw", "vault.redeem", "vault.withdraw(operator)", "vault.redeem(operator)", "vault.donation"],
                 );
+                rep.require_counter(&["idle-probes"]);
             }
         },
     );
